@@ -400,6 +400,191 @@ def _flat(x):
         yield x
 
 
+# ---- V3: per-chunk work for any set of needed source tiles (the non-linear route) ---------------
+def h_chunk_any_selection(nsel, extra):
+    """_do_chunked_reproject with a dependency list that is not a rectangle of tiles (what rotated
+    grids and other CRSs produce): the window handed to the warper is the block spanned by the
+    listed tiles, georeferenced as that crop of the source, every pixel of a listed tile sits in
+    it where the crop says, from the block that was handed over for that tile"""
+    import numpy as real_np
+
+    import odc.geo._dask as dk
+    import odc.geo.geobox as gbx
+    import odc.geo.warp as warp
+    from affine import Affine
+
+    conc = symx.concrete_mode()
+    chy = tuple(Int(f"cy{i}", 1, 40) for i in range(3))
+    chx = tuple(Int(f"cx{i}", 1, 40) for i in range(3))
+    NY, NX = symx.s_sum(chy), symx.s_sum(chx)
+    src_g = gbx.GeoBox((NY, NX), Affine(rconst(10), 0.0, Real("c"), 0.0, rconst(-10), Real("f")), "epsg:3857")
+    dst_g = gbx.GeoBox((6, 8), Affine(rconst(7), rconst(2), Real("dc"), rconst(-2), rconst(-7), Real("df")), "epsg:3857")
+    src_gbt = gbx.GeoboxTiles(src_g, (chy, chx))
+    dst_gbt = gbx.GeoboxTiles(dst_g, (6, 8))
+    sel = []
+    for k_ in range(nsel):
+        r, c = Int(f"r{k_}", 0, 2), Int(f"q{k_}", 0, 2)
+        for r2, c2 in sel:
+            assume(Or(r != r2, c != c2))
+        sel.append((r, c))
+    selv = [(r.__index__() if isinstance(r, symx.Sym) else r, c.__index__() if isinstance(c, symx.Sym) else c) for r, c in sel]
+    ydim = 0 if extra == "none" else 1
+    lead = () if extra == "none" else (T,)
+    offy, offx = [0], [0]
+    for v in chy:
+        offy.append(offy[-1] + v)
+    for v in chx:
+        offx.append(offx[-1] + v)
+    # probed source pixel inside the k-th listed tile
+    kk = Int("kk", 0, nsel - 1)
+    kv = kk.__index__() if isinstance(kk, symx.Sym) else kk
+    tr, tc_ = selv[kv]
+    I, J = Int("I"), Int("J")
+    assume(And(offy[tr] <= I, I < offy[tr + 1], offx[tc_] <= J, J < offx[tc_ + 1]))
+    if conc:
+        shape = (*lead, NY, NX)
+        n = 1
+        for s_ in shape:
+            n *= s_
+        data = (real_np.arange(n).reshape(shape) % 250 + 1).astype("int16")
+        blocks = [data[(..., slice(offy[r], offy[r + 1]), slice(offx[c], offx[c + 1]))] for r, c in selv]
+        seen = []
+        real_rr = dk._rio_reproject
+
+        def rec(src_, dst_, s_gbox, d_gbox, **kw):
+            seen.append((real_np.array(src_), s_gbox, d_gbox))
+            return dst_
+
+        dk._rio_reproject = rec
+        try:
+            dk._do_chunked_reproject({(0, 0): selv}, src_gbt, dst_gbt, (0, 0), *blocks, axis=ydim)
+        finally:
+            dk._rio_reproject = real_rr
+        win, sg, dg = seen[0]
+        x0, y0 = (~src_g.affine) * (sg.affine * (0, 0))
+        i, j = I - int(round(y0)), J - int(round(x0))
+        ok = 0 <= i < win.shape[0] and 0 <= j < win.shape[1] and win[i, j] == data[(*([0] * len(lead)), I, J)]
+        prove("window_holds_the_pixel_where_the_crop_says", bool(ok))
+        prove("destination_grid_is_the_chunk", dg == dst_g)
+        return
+
+    from ..npmodel import FakeBlock, RecArray
+
+    blocks = [FakeBlock((r, c), (*lead, chy[r], chx[c]), "int16") for r, c in selv]
+    calls = []
+    real_reproject = warp.rasterio.warp.reproject
+    warp.rasterio.warp.reproject = lambda s_, d_, **kw: calls.append((s_, d_, kw))
+    try:
+        res = dk._do_chunked_reproject({(0, 0): selv}, src_gbt, dst_gbt, (0, 0), *blocks, axis=ydim)
+    finally:
+        warp.rasterio.warp.reproject = real_reproject
+    prove("one_warp_per_plane", len(calls) == (1 if extra == "none" else T))
+    prove("chunk_has_the_destination_shape", isinstance(res, RecArray) and tuple(res.shape) == (*lead, 6, 8))
+    win, c_dst, kw = calls[0]
+    prove("warp_reads_an_assembled_window", isinstance(win, RecArray) and win.ndim == 2)
+    st, dt = kw["src_transform"], kw["dst_transform"]
+    prove("destination_transform_is_the_chunks", And(*[ex(a) == ex(b) for a, b in zip(tuple(dt)[:6], tuple(dst_g.affine)[:6])]))
+    # the crop: pixel (0,0) of the window is source pixel (X0, Y0), same pixel size
+    x0, y0 = (~src_g.affine) * (st * (0, 0))
+    prove("window_has_the_source_pixel_size", And(ex(st.a) == 10, ex(st.e) == -10, ex(st.b) == 0, ex(st.d) == 0))
+    prove("window_starts_on_a_source_pixel", And(ex(x0) == symx.s_floor(ex(x0)), ex(y0) == symx.s_floor(ex(y0))))
+    i, j = I - ex(y0), J - ex(x0)
+    wshape = [s_ for a, s_ in enumerate(win.shape) if a not in (win.squeezed or ())]
+    prove("listed_tile_pixel_is_inside_the_window", And(0 <= i, i < wshape[0], 0 <= j, j < wshape[1]))
+    covs = []
+    for d_roi, b, s_roi in win.writes:
+        dy, dx = d_roi[ydim], d_roi[ydim + 1]
+        sy, sx = s_roi[ydim], s_roi[ydim + 1]
+        dy0 = 0 if dy.start is None else dy.start
+        dx0 = 0 if dx.start is None else dx.start
+        cov = And(dy0 <= i, i < dy.stop, dx0 <= j, j < dx.stop)
+        br, bc = b.name
+        prove(f"tile{br}{bc}:pixel_comes_from_its_own_block_at_its_own_offset",
+              And(br == tr, bc == tc_, sy.start + (i - dy0) == I - offy[tr], sx.start + (j - dx0) == J - offx[tc_]), when=cov)
+        covs.append(cov)
+    prove("listed_tile_pixel_is_written_into_the_window", Or(*covs) if covs else False)
+    prove("each_block_is_used_once", len(win.writes) == nsel)
+
+
+# ---- V4: graph names ------------------------------------------------------------------------------
+def _inj_token(*args, **kw):
+    """injective stand-in for dask.base.tokenize: equal tokens only for structurally equal arguments"""
+
+    def norm(x):
+        if hasattr(x, "__dask_tokenize__"):
+            return ("T", norm(x.__dask_tokenize__()))
+        if isinstance(x, (tuple, list)):
+            return tuple(norm(v) for v in x)
+        if isinstance(x, dict):
+            return tuple(sorted((str(k_), norm(v)) for k_, v in x.items()))
+        if isinstance(x, symx.Sym):
+            return ("sym", str(x.t))
+        if x is None or isinstance(x, (int, float, str, bool)):
+            return x
+        if hasattr(x, "tolist"):
+            return ("arr", norm(x.tolist()))
+        if hasattr(x, "name") and hasattr(x, "value"):
+            return ("enum", str(x))
+        return ("id", id(x))
+
+    return "tok" + repr(norm((args, kw)))
+
+
+def h_graph_names(vary):
+    """two reprojection requests that differ in one parameter never share task keys (dask would
+    hand the result of one to the other when they are computed together)"""
+    import numpy as real_np
+
+    import odc.geo._dask as dk
+
+    conc = symx.concrete_mode()
+    Ns, Nd = 8, 5
+    t = Real("t")
+    assume(And(t >= 1, t <= 2))
+    src_g, dst_g = _grids("1", 1, "x", Ns, Nd, t, Real("o"))
+    a = dict(src_nodata=None, dst_nodata=None, resampling="nearest", chunks=(8, 3), d=dst_g)
+    b = dict(a)
+    if vary == "dst_nodata":
+        b["dst_nodata"] = -1
+    elif vary == "src_nodata":
+        b["src_nodata"] = -9999
+    elif vary == "both_nodata":
+        a.update(src_nodata=-9999)
+        b.update(src_nodata=-9999, dst_nodata=0)
+    elif vary == "resampling":
+        b["resampling"] = "bilinear"
+    elif vary == "chunks":
+        b["chunks"] = (8, 4)
+    elif vary == "grid":
+        b["d"] = dst_g.translate_pix(1, 0) if conc else _grids("1", 1, "x", Ns, Nd, t + 1, src_g.affine.c)[1]
+    if conc:
+        import dask.array as da
+
+        src = da.from_array(real_np.ones((PIN, Ns), dtype="int16"), chunks=(PIN, 4))
+    else:
+        ch = (Ns,)
+        src = _FakeSrc(((PIN,), ch), (PIN, 8), "int16")
+        for nm in ("tokenize",):
+            if hasattr(dk, nm):
+                setattr(dk, nm, _inj_token)
+        import dask.base as db
+
+        saved_tok = db.tokenize
+        db.tokenize = _inj_token
+    try:
+        outs = [dk._dask_rio_reproject(src, src_g, p_["d"], p_["resampling"], src_nodata=p_["src_nodata"], dst_nodata=p_["dst_nodata"], ydim=0, chunks=p_["chunks"]) for p_ in (a, b)]
+    finally:
+        if not conc:
+            db.tokenize = saved_tok
+    prove("requests_that_differ_have_different_graph_names", outs[0].name != outs[1].name)
+    if conc:
+        k0 = set(map(str, outs[0].__dask_graph__().keys()))
+        k1 = set(map(str, outs[1].__dask_graph__().keys()))
+        own0 = {k_ for k_ in k0 if k_.startswith("('reproject")}
+        own1 = {k_ for k_ in k1 if k_.startswith("('reproject")}
+        prove("requests_that_differ_share_no_reproject_task", not (own0 & own1))
+
+
 # ---- V1: fill value ---------------------------------------------------------------------------
 def h_fill_value(dtype):
     import numpy as real_np
@@ -464,6 +649,14 @@ V2 = dict(
 OBLIGATIONS = [
     Ob("V1_fill_value", h_fill_value, fixed(*[dict(dtype=d) for d in ("uint8", "int16", "float32", "float64", "bool")]),
        descr="fill value: destination nodata, else source nodata, else NaN for floats, else zero, in the array's dtype", functions=("odc.geo._dask.resolve_fill_value",), setup=setup),
+    Ob("V3_chunk_work_any_selection", h_chunk_any_selection, tiered([dict(nsel=2, extra="none"), dict(nsel=3, extra="lead")], [dict(nsel=n, extra=e) for n in (1, 2, 3) for e in ("none", "lead")]),
+       descr="_do_chunked_reproject with a dependency list that is not a rectangle of tiles (rotated grids / other CRSs): the window is the crop of the source spanned by the listed tiles, every pixel of a listed tile sits where the crop says, from the block handed over for that tile",
+       functions=("odc.geo._dask._do_chunked_reproject", "odc.geo.geobox.GeoboxTiles.clip", "odc.geo.roi.clip_tiles", "odc.geo._blocks.BlockAssembler.extract", "odc.geo.warp._rio_reproject"),
+       bounds="3x3 source tiling with symbolic chunk sizes (1..40), 1..3 distinct listed tiles at symbolic positions, symbolic probed pixel; destination chunk rotated/sheared (fixed linear part), symbolic origins",
+       stubs=("rasterio.warp.reproject recorder", "NumpyModel (recording full/zeros/copyto)"), setup=setup, timeout_ms=20000, deadline_s=900.0),
+    Ob("V4_graph_names", h_graph_names, fixed(*[dict(vary=v) for v in ("dst_nodata", "src_nodata", "both_nodata", "resampling", "chunks", "grid")]),
+       descr="two requests on the same source that differ in nodata, resampling, destination chunking or destination grid never share task keys",
+       functions=("odc.geo._dask._dask_rio_reproject",), bounds="offset between the grids symbolic (fixed sizes); the differing parameter from a list", stubs=("dask.base.tokenize replaced by an injective stand-in", "dask.array.Array / HighLevelGraph recorders"), setup=setup),
     Ob("V2_chunked_equals_whole", h_chunked, lambda tier, rng: _grid(tier),
        descr="for a symbolic destination pixel the chunked route and the whole-array route sample the same source pixel, reach a source pixel for the same pixels, and leave the same (the statement's) fill value elsewhere; graph shape, keys, chunk table",
        **V2),
